@@ -38,6 +38,8 @@ def run_flow(pid, tier, replay, prefix):
     progs.update({"exit-%d" % i: t for i, t in enumerate(corpus.EXIT_PROGRAMS)})
     progs.update({"shared-%d" % i: t for i, t in enumerate(corpus.SHARED_PROGRAMS)})
     progs.update({"traps-%d" % i: t for i, t in enumerate(corpus.TRAP_TABLES)})
+    if not replay:
+        progs.update({"gen-shared-%d" % i: t for i, t in enumerate(shared_programs(tier, out, part=2))})
     cres = run_tlc("Gen_Conform", cfg="Gen_Conform", simulate=(40 if tier == "quick" else 800), depth=10, workers=4, seed_=seed() * 53 + 9)
     out.add_tlc(cres)
     progs.update({"conform-%d" % i: c["text"] for i, c in enumerate(cres.tagged("CASE"))})
